@@ -17,6 +17,9 @@ type Gen struct {
 
 func (g *Gen) pick(xs ...string) string { return xs[g.R.Intn(len(xs))] }
 
+// Pick returns one of xs.
+func (g *Gen) Pick(xs ...string) string { return g.pick(xs...) }
+
 // Param returns one parameter as text: omitted, 0, 1, around the screen size, huge.
 func (g *Gen) Param(size int) string {
 	switch n := g.R.Intn(20); {
@@ -158,12 +161,14 @@ func (g *Gen) Sgr() string {
 		case k < 9:
 			ps = append(ps, g.pick(fmt.Sprint(30+g.R.Intn(8)), fmt.Sprint(40+g.R.Intn(8)), "39", "49"))
 		case k < 11:
-			ps = append(ps, g.pick("38;5;", "48;5;", "58;5;", "38:5:", "48:5:")+fmt.Sprint(g.R.Intn(300)))
+			ps = append(ps, g.pick("38;5;", "48;5;", "58;5;", "38:5:", "48:5:", "58:5:")+fmt.Sprint(g.R.Intn(300)))
 		case k < 13:
-			ps = append(ps, g.pick("38;2;", "48;2;", "58;2;", "38:2:", "48:2::")+
+			ps = append(ps, g.pick("38;2;", "48;2;", "58;2;", "38:2:", "48:2::", "58:2:", "58:2::")+
 				strings.ReplaceAll(fmt.Sprintf("%d;%d;%d", g.R.Intn(256), g.R.Intn(256), g.R.Intn(256)), ";", g.pick(";", ":")))
 		case k < 14:
-			ps = append(ps, g.pick("38", "48;5", "38;2;1", "58", "38;7;1;2;3", "48:5", "38:2:1:2"))
+			// an extended colour cut at a random length (it swallows the parameters
+			// that follow it, or is the tail of the list)
+			ps = append(ps, g.ExtColour())
 		case k < 15:
 			ps = append(ps, g.pick(fmt.Sprint(90+g.R.Intn(8)), fmt.Sprint(100+g.R.Intn(8))))
 		default:
@@ -171,6 +176,94 @@ func (g *Gen) Sgr() string {
 		}
 	}
 	return "\x1b[" + strings.Join(ps, ";") + "m"
+}
+
+// ExtColour returns one extended-colour parameter group (SGR 38 / 48 / 58) in the
+// semicolon form, the colon form or a mixture, with the selector omitted, 0, 2 (RGB),
+// 5 (indexed) or unknown, followed by 0..5 values: every truncation of every form.
+func (g *Gen) ExtColour() string {
+	parts := []string{g.pick("38", "48", "58")}
+	if g.R.Intn(8) != 0 {
+		parts = append(parts, g.pick("2", "2", "5", "5", "5", "", "0", "9"))
+		for n := g.R.Intn(6); n > 0; n-- {
+			parts = append(parts, g.pick("0", "1", "7", "255", "256", "300", "", fmt.Sprint(g.R.Intn(256))))
+		}
+	}
+	var b strings.Builder
+	sep := g.pick(";", ";", ":", ":", "?")
+	for i, p := range parts {
+		if i > 0 {
+			if sep == "?" {
+				b.WriteString(g.pick(";", ":"))
+			} else {
+				b.WriteString(sep)
+			}
+		}
+		b.WriteString(p)
+	}
+	return b.String()
+}
+
+// SgrTruncations enumerates the parameter text of SGR sequences around the extended
+// colours: for each of 38 / 48 / 58, the bare code and every selector (omitted, 0, 2, 5,
+// unknown) followed by 0..5 values, in the semicolon form, the colon form and the two
+// mixed forms (selector attached by ':' and values by ';', and the reverse), each at the
+// start of the list and after other parameters (so that the group is the tail of the
+// list at every length).
+func SgrTruncations() []string {
+	var groups []string
+	for _, code := range []string{"38", "48", "58"} {
+		groups = append(groups, code)
+		for _, sel := range []string{"", "0", "2", "5", "9"} {
+			for n := 0; n <= 5; n++ {
+				vals := []string{"7", "8", "9", "10", "11"}[:n]
+				for _, form := range [][2]string{{";", ";"}, {":", ":"}, {":", ";"}, {";", ":"}} {
+					if n == 0 && form[0] != form[1] {
+						continue
+					}
+					s := code + form[0] + sel
+					for _, v := range vals {
+						s += form[1] + v
+					}
+					groups = append(groups, s)
+				}
+			}
+		}
+	}
+	var out []string
+	for _, pre := range []string{"", "1;", "4:3;", "7;38;5;1;"} {
+		for _, gr := range groups {
+			out = append(out, pre+gr)
+		}
+	}
+	return out
+}
+
+// linkChars is the alphabet of generated hyperlink targets and parameters: it contains
+// the OSC field separator ';', the parameter separators ':' and '=', and other URI
+// punctuation.
+const linkChars = "ab/;;;:=?&#%.-_~+,@!$'()*[]19 "
+
+// LinkText returns a string of 0..n characters over linkChars (no ';' if !semi).
+func (g *Gen) LinkText(n int, semi bool) string {
+	var b strings.Builder
+	for k := g.R.Intn(n + 1); k > 0; k-- {
+		c := linkChars[g.R.Intn(len(linkChars))]
+		if c == ';' && !semi {
+			c = ':'
+		}
+		b.WriteByte(c)
+	}
+	return b.String()
+}
+
+// Link returns the payload of an OSC 8: params ; URI, the URI being everything after
+// the second ';' of the sequence.
+func (g *Gen) Link() (params, uri string) {
+	params = g.pick("", "", "id=1", "id=a:b=c", "id=x=y", g.LinkText(6, false))
+	uri = g.pick("", "http://a", "x;y", ";", ";;", "https://example.org/docs;v=2/page;rev=7?x=1", "mailto:a@b?subject=x;y",
+		"data:text/plain;charset=utf-8;base64,aGk=", "http://h/p;jsessionid=1:2=3", g.LinkText(12, true), g.LinkText(12, true))
+	return
 }
 
 // Osc returns an OSC / APC / DCS string.
@@ -186,7 +279,11 @@ func (g *Gen) Str() string {
 	case k < 5:
 		return "\x1b]777;" + g.pick("notify;t", "notify", "x;y;z", "") + end
 	case k < 8:
-		return "\x1b]8;" + g.pick("", "id=1", "id=a:b=c") + ";" + g.pick("", "http://a", "x;y", "λ") + end
+		if g.R.Intn(6) == 0 {
+			return "\x1b]8;" + g.pick("", "id=1") + ";λ" + end
+		}
+		p, u := g.Link()
+		return "\x1b]8;" + p + ";" + u + end
 	case k < 9:
 		return "\x1b]8" + g.pick("", ";", ";x") + end
 	case k < 10:
